@@ -162,7 +162,8 @@ class ScalerOperator(MCMCOperator):
         index = torch.randint(0, len(self.parameters), (1,)).item()
         index2 = torch.randint(0, len(self.parameters[index].tensor), (1,)).item()
         p = self.parameters[index].tensor
-        p[index2] *= s
+        with torch.no_grad():
+            p[index2] *= s
         self.parameters[index].tensor = p
         # this does not trigger listeners:
         # self.parameters[index].tensor[index2] *= s
@@ -225,7 +226,8 @@ class SlidingWindowOperator(MCMCOperator):
         index = torch.randint(0, len(self.parameters), (1,)).item()
         index2 = torch.randint(0, len(self.parameters[index].tensor), (1,)).item()
         p = self.parameters[index].tensor
-        p[index2] += shift
+        with torch.no_grad():
+            p[index2] += shift
         self.parameters[index].tensor = p
 
         return torch.tensor(
